@@ -1,6 +1,7 @@
 package pledger
 
 import (
+	"bytes"
 	"encoding/json"
 	"fmt"
 	"os"
@@ -10,6 +11,7 @@ import (
 	"github.com/polynetwork/poly/common"
 	"github.com/polynetwork/poly/core/store/ledgerstore"
 	"github.com/polynetwork/poly/core/types"
+	"github.com/polynetwork/poly/merkle"
 	"pgregory.net/rapid"
 
 	"verif/harness/ev"
@@ -292,6 +294,31 @@ func crashRun(ctx *ev.Ctx, c c12Case, ref *c12Ref, cr c12Crash, twice bool) {
 		}
 		if _, ok := check(st2, fmt.Sprintf("after continuing to block %d", h)); !ok {
 			return
+		}
+	}
+	// the block-merkle tree as relayers see it: every block-inclusion proof served by the recovered ledger must verify
+	// against the committed header's block root (the hash file behind the accumulator is not part of the state dump)
+	tip := st2.GetCurrentBlockHeight()
+	for r := uint32(1); r <= tip; r++ {
+		root := ref.blocks[r].Header.BlockRoot
+		for h := uint32(0); h < r; h++ {
+			hh := ref.blocks[h].Hash()
+			var proof []byte
+			var err error
+			if p := ev.Catch(func() { proof, err = st2.GetMerkleProof(hh[:], h+1, r) }); p != "" {
+				ctx.Failf("%s: GetMerkleProof(%d,%d) panicked after recovery: %s", where, h, r, p)
+			}
+			if err != nil {
+				if ctx.Known(c12Key(cr, "block-proof-unavailable"), "%s: no block-inclusion proof (h=%d, r=%d) after recovery: %v", where, h, r, err) {
+					return
+				}
+			}
+			val, err := merkle.MerkleProve(proof, root[:])
+			if err != nil || !bytes.Equal(val, hh[:]) {
+				if ctx.Known(c12Key(cr, "block-proof-wrong"), "%s: block-inclusion proof (h=%d, r=%d) served after recovery does not verify against header %d's block root: %v", where, h, r, r, err) {
+					return
+				}
+			}
 		}
 	}
 }
